@@ -965,12 +965,15 @@ def exponential_binning(
             raise ValueError("Cannot find optimum bin count without data.")
         bin_count = ideal_bin_count(data)
 
-    if range:
-        range = (np.log10(range[0]), np.log10(range[1]))
-    else:
+    if not range:
         if data is None:
             raise ValueError("Cannot guess the range without data.")
-        range = (np.log10(data.min()), np.log10(data.max()))
+        range = (data.min(), data.max())
+    if not 0 < range[0] < range[1]:
+        raise ValueError(
+            f"Exponential binning requires a rising range of positive values, {range} found."
+        )
+    range = (np.log10(range[0]), np.log10(range[1]))
     log_width = (range[1] - range[0]) / bin_count
     return ExponentialBinning(
         log_min=range[0], log_width=log_width, bin_count=bin_count, **kwargs
